@@ -1334,6 +1334,9 @@ namespace
             else if (kind == "pass") { env.ports.emplace(id, wire<VPass>(w, sid, in.at(0))); }
             else if (kind == "add") { env.ports.emplace(id, wire<VAdd>(w, sid, Int{l.geti("k", 1)}, in.at(0))); }
             else if (kind == "sum2") { env.ports.emplace(id, wire<VSum2>(w, sid, in.at(0), in.at(1))); }
+            // a LIFTED library operator (its node has a specialised evaluator, unlike the static nodes of the vocabulary):
+            // integer floor division, throws "floordiv_: division by zero"
+            else if (kind == "fdiv") { env.ports.emplace(id, wire<stdlib::floordiv_>(w, in.at(0), in.at(1)).as<TS<Int>>()); }
             else if (kind == "lsum") { env.ports.emplace(id, wire<VLSum>(w, sid, {in.at(0).erased(), in.at(1).erased()})); }
             else if (kind == "lsumv") { env.ports.emplace(id, wire<VLSumV>(w, sid, {in.at(0).erased(), in.at(1).erased()})); }
             else if (kind == "lsum3") { env.ports.emplace(id, wire<VLSum3>(w, sid, {in.at(0).erased(), in.at(1).erased(), in.at(2).erased()})); }
